@@ -350,6 +350,8 @@ def run(rep, prog, thorough):
     check_m2c00(rep, prog)
     check_no_static_plugin_imports(rep, prog)
     check_P_option(rep, prog)
+    from ..effects import check_payload_is_memoryview
+    check_payload_is_memoryview(rep, prog, "C18.R2.arguments")
     # containment of a failing user-data plug-in (rules shared with C04)
     from .c04 import check_parse, check_sections
     check_parse(rep, prog)
